@@ -402,7 +402,7 @@ def run_property(prop, tier, seed):
             inconclusive.append("%s shard %d: %s" % (job["cfg"], job["shard"], i))
 
     # Required regimes: a run that never reached one is inconclusive, not a pass.
-    for req in plan.get("require", {}).get(tier, []):
+    for req in ([] if os.environ.get("VERIF_ONLY_CFGS") else plan.get("require", {}).get(tier, [])):
         ok = plans.requirement_met(req, counters, probes, sets, builds)
         if not ok:
             inconclusive.append("required regime not reached: %s" % (req,))
